@@ -179,6 +179,120 @@ fn inline_case(kind: InlineKind, items: &[Lane], st: &mut Stats) {
     }
 }
 
+/// Joint release decisions of a tick with several hooks, through the REAL run_hooks with the
+/// repo's exhaustive driver installed as the bolero scope (as `CompiledSim::exhaustive` does).
+fn joint_case(states: &[HookState], st: &mut Stats) {
+    let mut next_id: Id = 0;
+    let mut probe: Vec<Subject> = states.iter().map(|s| build_state(s, &mut next_id)).collect();
+    let ready = probe.iter_mut().all(|s| s.live.hook().is_ready());
+    let cans: Vec<bool> = probe.iter_mut().map(|s| s.live.hook().can_make_nontrivial_decision()).collect();
+    if !ready || !cans.iter().any(|c| *c) {
+        return; // SimTick::can_run() is false
+    }
+    // Expected: run_hooks lets every hook decide freely (trivially or not) and only forces the LAST
+    // undecided hook when nothing has been released yet => every combination of per-hook legal
+    // decisions except those in which no hook releases anything new.
+    let per_hook: Vec<Vec<Canon>> = probe.iter().map(|s| legal_releases(s.live.kind, &s.model, false).into_iter().map(|(c, _)| c).collect()).collect();
+    let is_new = |c: &Canon| c.iter().any(|(l, v)| l.0 != 9 && !v.is_empty());
+    let mut expected: BTreeSet<Vec<Canon>> = BTreeSet::new();
+    let mut combos: Vec<Vec<Canon>> = vec![vec![]];
+    for opts in &per_hook {
+        combos = combos.iter().flat_map(|c| opts.iter().map(move |o| { let mut t = c.clone(); t.push(o.clone()); t })).collect();
+    }
+    for c in combos {
+        if c.iter().any(is_new) {
+            expected.insert(c);
+        }
+    }
+    let mut reached: BTreeMap<Vec<Canon>, u64> = BTreeMap::new();
+    let mut failure: Option<String> = None;
+    let mut d = Box::new(new_exhaustive());
+    let mut paths = 0u64;
+    while let ControlFlow::Continue(()) = d.step() {
+        paths += 1;
+        if paths > 2_000_000 {
+            st.cap(format!("joint decisions: vector {:?} stopped after {paths} paths", states.iter().map(|s| s.label()).collect::<Vec<_>>()));
+            return;
+        }
+        let mut next_id: Id = 0;
+        let mut subjects: Vec<Subject> = states.iter().map(|s| build_state(s, &mut next_id)).collect();
+        let befores: Vec<Model> = subjects.iter().map(|s| s.model.clone()).collect();
+        let mut hooks: Vec<Box<dyn hydro_lang::sim::runtime::SimHook>> = subjects.iter_mut().map(|s| s.live.hook.take().unwrap()).collect();
+        let (back, res) = bg::any::scope::with(d, || vf_explore::catch(|| hydro_lang::sim::compiled::verif_run_hooks(&mut hooks)));
+        d = back;
+        if let Err(p) = res {
+            failure = Some(format!("run_hooks panicked: {p}"));
+            continue;
+        }
+        let joint: Vec<Canon> = subjects.iter_mut().zip(&befores).map(|(s, b)| canon(s.live.kind, b, &s.live.drain().0)).collect();
+        *reached.entry(joint).or_default() += 1;
+    }
+    st.eval();
+    st.transitions += paths;
+    st.nontrivial(&states);
+    for j in reached.keys() {
+        st.outcome(&(states, j));
+    }
+    DUPLICATES.fetch_add(reached.values().map(|c| c - 1).sum::<u64>(), std::sync::atomic::Ordering::Relaxed);
+    let labels: Vec<String> = states.iter().map(|s| s.label()).collect();
+    let case = json!({"section": "joint", "hooks": states.iter().map(|s| json!({"kind": s.kind.name(), "prepped": s.prepped, "items": s.items.iter().map(|(a, b)| vec![*a, *b]).collect::<Vec<_>>()})).collect::<Vec<_>>()});
+    if let Some(f) = failure {
+        st.violation("C37/joint/failure".to_string(), format!("tick with hooks {labels:?}: {f}"), case.clone());
+    }
+    if let Some(miss) = expected.iter().find(|j| !reached.contains_key(*j)) {
+        let missing = expected.iter().filter(|j| !reached.contains_key(*j)).count();
+        st.violation(
+            format!("C37/joint/missing/{}-hooks", states.len()),
+            format!("tick with hooks {labels:?}: run_hooks under the exhaustive driver explored {paths} paths reaching {} joint release decisions, but never {miss:?} (one entry per hook; {missing} of {} legal combinations missing)", reached.len(), expected.len()),
+            case.clone(),
+        );
+    }
+    if let Some(extra) = reached.keys().find(|j| !expected.contains(*j)) {
+        st.violation(
+            format!("C37/joint/unexpected/{}-hooks", states.len()),
+            format!("tick with hooks {labels:?}: joint release decision {extra:?} is outside the legal combinations"),
+            case,
+        );
+    }
+    st.sample(|| json!({"tick_hooks": labels, "paths": paths, "joint_decisions_reached": reached.len(), "expected": expected.len()}));
+}
+
+fn joint_level(thorough: bool) -> Stats {
+    let tick_kinds: Vec<Kind> = ALL_KINDS.iter().copied().filter(|k| !k.top_level()).collect();
+    let states = hook_states(&tick_kinds, if thorough { 3 } else { 2 });
+    let idle_pt = |s: &HookState| s.kind == Kind::Passthrough && s.items.is_empty();
+    let triple_total = if thorough { 7 } else { 6 };
+    let mut vectors: Vec<Vec<HookState>> = vec![];
+    for a in &states {
+        for c in &states {
+            let v = vec![a.clone(), c.clone()];
+            if !v.iter().any(idle_pt) {
+                vectors.push(v);
+            }
+        }
+    }
+    for a in &states {
+        for c in &states {
+            for d in &states {
+                if a.items.len() + c.items.len() + d.items.len() <= triple_total {
+                    let v = vec![a.clone(), c.clone(), d.clone()];
+                    if !v.iter().any(idle_pt) {
+                        vectors.push(v);
+                    }
+                }
+            }
+        }
+    }
+    let chunk = 128;
+    par_map(vectors.len().div_ceil(chunk), ncpu(), |ci| {
+        let mut st = Stats::new();
+        for v in &vectors[ci * chunk..((ci + 1) * chunk).min(vectors.len())] {
+            joint_case(v, &mut st);
+        }
+        st
+    })
+}
+
 fn hook_level(thorough: bool) -> Stats {
     let max_items = if thorough { 5 } else { 4 };
     let max_ticks = 3;
@@ -295,6 +409,31 @@ fn expected_outcomes(name: &str, n: usize) -> BTreeSet<Obs> {
                 out.insert(vec![vec![(0, p)]]);
             }
         }
+        // every tick takes a prefix of each of the three inputs, not all empty, until all is delivered:
+        // in particular the first tick shows every non-empty combination (1,0,0), (0,1,0), ...
+        "three_input_tick" => {
+            let ins: [Vec<u32>; 3] = [(1..=(n as u32 - 2)).collect(), vec![21], vec![31]];
+            fn go(ins: &[Vec<u32>; 3], pos: [usize; 3], acc: &mut Obs, out: &mut BTreeSet<Obs>) {
+                if (0..3).all(|i| pos[i] == ins[i].len()) {
+                    out.insert(acc.clone());
+                    return;
+                }
+                for ka in 0..=(ins[0].len() - pos[0]) {
+                    for kb in 0..=(ins[1].len() - pos[1]) {
+                        for kc in 0..=(ins[2].len() - pos[2]) {
+                            if ka + kb + kc == 0 {
+                                continue;
+                            }
+                            let k = [ka, kb, kc];
+                            acc.push((0..3).map(|i| (i as u32, ins[i][pos[i]..pos[i] + k[i]].to_vec())).collect());
+                            go(ins, [pos[0] + ka, pos[1] + kb, pos[2] + kc], acc, out);
+                            acc.pop();
+                        }
+                    }
+                }
+            }
+            go(&ins, [0, 0, 0], &mut vec![], &mut out);
+        }
         // tick B sees 0..=|a| of tick A's items counted, depending on which ready tick ran first
         "two_ticks" => {
             for c in 0..n as u32 {
@@ -312,7 +451,7 @@ fn expected_outcomes(name: &str, n: usize) -> BTreeSet<Obs> {
     out
 }
 
-pub const C37_PROGRAMS: [&str; 8] = [
+pub const C37_PROGRAMS: [&str; 9] = [
     "ordered_batch",
     "unordered_batch_observed",
     "snapshot_of_fold",
@@ -321,6 +460,7 @@ pub const C37_PROGRAMS: [&str; 8] = [
     "toplevel_order",
     "two_ticks",
     "two_slice_counter",
+    "three_input_tick",
 ];
 /// Programs without a hand-derived outcome set: the repo's exhaustive search is compared with the
 /// harness's own complete DFS over the same decision tree only.
@@ -405,6 +545,8 @@ pub fn program_case(name: &str, n: usize, with_expected: bool) -> Stats {
 fn prog_n(name: &str, thorough: bool) -> usize {
     match (name, thorough) {
         ("two_slice_counter", _) => 2,
+        ("three_input_tick", false) => 3,
+        ("three_input_tick", true) => 4,
         ("toplevel_fold_order", true) | ("unordered_batch_observed", true) | ("unordered_sum", true) => 3,
         ("toplevel_fold_order", false) | ("unordered_sum", false) => 3,
         (_, true) => 4,
@@ -415,6 +557,7 @@ fn prog_n(name: &str, thorough: bool) -> usize {
 pub fn run(rep: &mut Report) {
     let thorough = rep.thorough();
     rep.rule = "hook level: one case = (hook kind, initial queue, number of ticks, force flag); the SET of canonical release sequences reached by the repo's exhaustive bolero driver is compared with the set enumerated from the reference model. \
+                joint level: one case = an ordered vector of 2-3 tick-input hook states accepted by SimTick::can_run; the set of joint release decisions reached through the real run_hooks is compared with the product of the hooks' legal decisions minus the combinations releasing nothing new. \
                 program level: one case = a program + input; the set of observations over all instances of flow.sim().exhaustive()."
         .into();
     rep.explanation = "bolero's exhaustive::Driver is stepped exactly as its engine does and feeds the real hooks; reached release-sequence sets must equal the independently enumerated legal sets \
@@ -431,6 +574,13 @@ pub fn run(rep: &mut Report) {
     println!("  hook level: {} cases, {} driver paths, {} duplicate paths, {:.1}s", s.evaluations, s.transitions, DUPLICATES.load(std::sync::atomic::Ordering::Relaxed), t.elapsed().as_secs_f64());
     rep.bound("hook_level_duplicate_paths_reported", DUPLICATES.load(std::sync::atomic::Ordering::Relaxed));
     rep.section("hook_level", s);
+    let t = std::time::Instant::now();
+    let s = joint_level(thorough);
+    println!("  joint decisions through run_hooks: {} ticks (vectors of 2-3 hooks), {} driver paths, {:.1}s", s.evaluations, s.transitions, t.elapsed().as_secs_f64());
+    rep.section("joint_run_hooks", s);
+    rep.bound("joint_hooks_per_tick", 3);
+    rep.bound("joint_queue_items_per_hook", if thorough { 3 } else { 2 });
+    rep.bound("joint_total_items_triples", if thorough { 7 } else { 6 });
     let t = std::time::Instant::now();
     let mut names: Vec<(&str, bool)> = C37_PROGRAMS.iter().map(|n| (*n, true)).collect();
     names.extend(C37_DFS_ONLY.iter().map(|n| (*n, false)));
@@ -458,6 +608,19 @@ pub fn replay(case: &Value) -> bool {
             let kind = InlineKind::from_name(case["kind"].as_str().unwrap()).unwrap();
             let items: Vec<Lane> = case["items"].as_array().unwrap().iter().map(|p| (p[0].as_u64().unwrap() as u8, p[1].as_u64().unwrap() as u8)).collect();
             inline_case(kind, &items, &mut st);
+        }
+        "joint" => {
+            let states: Vec<HookState> = case["hooks"]
+                .as_array()
+                .unwrap()
+                .iter()
+                .map(|h| HookState {
+                    kind: Kind::from_name(h["kind"].as_str().unwrap()).unwrap(),
+                    prepped: h["prepped"].as_bool().unwrap(),
+                    items: h["items"].as_array().unwrap().iter().map(|p| (p[0].as_u64().unwrap() as u8, p[1].as_u64().unwrap() as u8)).collect(),
+                })
+                .collect();
+            joint_case(&states, &mut st);
         }
         "programs" => {
             let name = case["program"].as_str().unwrap();
